@@ -177,3 +177,29 @@ func (v *Violation) Fingerprint() string {
 }
 
 func (v *Violation) Error() string { return v.Fingerprint() + ": " + v.Detail }
+
+// SleepChunked advances the fake clock by d in chunks shorter than tick (the smallest ticker
+// interval of the system under test) and stops early as soon as busy() reports that a ticker
+// goroutine is parked: at most one tick fires per call, so no tick ever queues up behind a parked
+// ticker goroutine (a queued tick would later tie with the goroutine's stop signal in a select
+// statement, whose choice Go does not let a test seed). wait must be synctest.Wait.
+func SleepChunked(d, tick time.Duration, wait func(), busy func() bool) time.Duration {
+	var slept time.Duration
+	for d > 0 {
+		c := d
+		if tick > 0 && c >= tick {
+			c = tick - 1
+		}
+		if c <= 0 {
+			c = 1
+		}
+		time.Sleep(c)
+		slept += c
+		d -= c
+		wait()
+		if busy() {
+			break
+		}
+	}
+	return slept
+}
